@@ -183,6 +183,14 @@ struct WfObjects {
                 else throw std::runtime_error("no such call");
                 (void)sink;
                 r.ret = "value";
+            } else if (op == "copy") {
+                // copy constructor: the copy must carry the same data, and destroying it must leave the original intact
+                std::string d0 = digest(o), dc;
+                if (o == "GF") { GreensFunction* cp = new GreensFunction(*GF); std::swap(GF, cp); dc = digest(o); std::swap(GF, cp); delete cp; }
+                else if (o == "SU") { Susceptibility* cp = new Susceptibility(*SU); std::swap(SU, cp); dc = digest(o); std::swap(SU, cp); delete cp; }
+                else if (o == "EA") { EnsembleAverage* cp = new EnsembleAverage(*EA); std::swap(EA, cp); dc = digest(o); std::swap(EA, cp); delete cp; }
+                else throw std::runtime_error("no such call");
+                r.ret = (dc == d0 && digest(o) == d0) ? "value" : "different";
             } else throw std::runtime_error("no such op");
         });
         r.out = ex.empty() ? "ok" : (ex == "exStatusMismatch" ? "throw" : "throw:" + ex);
